@@ -716,3 +716,47 @@ Example three_strikes_then_skipped :
   observe st 1 = ([2; 2; 2], true, Some (900 * NS)) /\
   snd (handle_quote (1030 * NS) st 1 (mq 990 9 99)) = None.
 Proof. vm_compute. split; reflexivity. Qed.
+
+(* ================================================================ timestamps before the epoch *)
+Lemma check_signed_z_nonneg_lemma K q tz p :
+  (0 <= tz)%Z -> check_signed_z K q tz p = Some (check_signed K (with_timestamp q (Z.to_N tz)) p).
+Proof.
+  intros H. unfold check_signed_z, check_signed, bytes_for_signing_z. cbn [pub_key signature with_timestamp].
+  replace (tz <? 0)%Z with false by (symmetry; apply Z.ltb_ge; lia).
+  destruct (decode_pk K (pub_key q)); [|reflexivity].
+  destruct (negb (bytes_eqb (peer_of K n) p)); reflexivity.
+Qed.
+
+(* a quote dated before the epoch is never accepted: there is no byte string to verify *)
+Lemma pre_epoch_never_accepted_lemma K q tz p : (tz < 0)%Z -> check_signed_z K q tz p <> Some true.
+Proof.
+  intros H. unfold check_signed_z, bytes_for_signing_z.
+  replace (tz <? 0)%Z with true by (symmetry; apply Z.ltb_lt; lia).
+  destruct (decode_pk K (pub_key q)); [|discriminate].
+  destruct (negb (bytes_eqb (peer_of K n) p)); discriminate.
+Qed.
+
+(* the signed string is injective in the timestamp's seconds over the whole domain: pre-epoch instants
+   have no signed string at all, so none of them can stand in for the epoch (or for each other) *)
+Lemma signing_z_injective_lemma q1 q2 tz1 tz2 m :
+  wf_quote (with_timestamp q1 (Z.to_N tz1)) = true -> wf_quote (with_timestamp q2 (Z.to_N tz2)) = true ->
+  bytes_for_signing_z q1 tz1 = Some m -> bytes_for_signing_z q2 tz2 = Some m ->
+  (0 <= tz1)%Z /\ (0 <= tz2)%Z /\ secs (Z.to_N tz1) = secs (Z.to_N tz2).
+Proof.
+  unfold bytes_for_signing_z. intros W1 W2.
+  destruct (Z.ltb_spec tz1 0); [discriminate|]. destruct (Z.ltb_spec tz2 0); [discriminate|].
+  intros E1 E2. injection E1 as E1. injection E2 as E2. subst m.
+  pose proof (signing_bytes_injective_lemma _ _ W1 W2 (eq_sym E2)) as E.
+  unfold signed_fields in E. cbn [timestamp with_timestamp] in E. injection E as _ E _ _. auto.
+Qed.
+
+(* at the epoch boundary: signed at UNIX_EPOCH; rewritten to one nanosecond / one second / 31 years
+   earlier the check has no verdict (it panics), it does not say "true" *)
+Example epoch_boundary :
+  let q := with_ts q0 0 in
+  let K := mkK [([8; 1], 5)] [(5, [0; 5])] [] [([1; 2; 3], Sig 5 (bytes_for_signing q))] in
+  check_signed_z K q 0 [0; 5] = Some true /\
+  check_signed_z K q (-1) [0; 5] = None /\ check_signed_z K q (-1000000000) [0; 5] = None /\
+  check_signed_z K q (-1000000000000000000) [0; 5] = None /\
+  check_signed_z K q 1000000000 [0; 5] = Some false /\ check_signed_z K q (-1) [0; 6] = Some false.
+Proof. vm_compute. repeat split; reflexivity. Qed.
